@@ -155,6 +155,22 @@ Definition oval_eqb (a b : option val) : bool :=
   | _, _ => false
   end.
 
+(* canonical form for the correspondence check: every dictionary sorted by key
+   (insertion sort).  The order of the keys inside a dictionary is not part of
+   C01; the content is (EnvApplyProofs.norm_get_path). *)
+Fixpoint insert_kv (k : nat) (v : val) (l : list (nat * val)) : list (nat * val) :=
+  match l with
+  | [] => [(k, v)]
+  | (k', v') :: r => if Nat.leb k k' then (k, v) :: l else (k', v') :: insert_kv k v r
+  end.
+Definition sort_kvs (l : list (nat * val)) : list (nat * val) :=
+  fold_right (fun kv acc => insert_kv (fst kv) (snd kv) acc) [] l.
+Fixpoint norm (v : val) : val :=
+  match v with
+  | Leaf n => Leaf n
+  | Dict l => Dict (sort_kvs (map (fun kv => (fst kv, norm (snd kv))) l))
+  end.
+
 (* a history of updates applied one after the other; None as soon as one raises *)
 Fixpoint apply_all (us : list val) (e : val) : option val :=
   match us with
